@@ -96,11 +96,12 @@ PLANS = {
         "assumptions": COMMON_ASSUME,
     },
     "C15": {
-        "rule": "sim engine with server graceful_shutdown / abrupt_shutdown at PRNG-chosen instants: GOAWAY last-stream-id monotone and >= every stream already returned by accept(); no accept() above a sent GOAWAY; in-flight streams at or below it complete (C01 ledger). Non-trivial iff a GOAWAY was sent while more than one stream had been opened; distinct by behaviour fingerprint.",
-        "quick": [sim("shutdown", 16000)],
-        "thorough": [sim("shutdown", 400000)],
+        "rule": "sim engine with server graceful_shutdown / abrupt_shutdown at PRNG-chosen instants: GOAWAY last-stream-id monotone and >= every stream already returned by accept(); no accept() above a sent GOAWAY; in-flight streams at or below it complete (C01 ledger); in cooperative scenarios with graceful_shutdown() (two thirds of the shutdown focus, often with user pings of either side in flight) neither endpoint may write an error GOAWAY, every stream the server had accepted completes at the client and the connection futures complete. raw engine, family shutdown: (E = server) graceful_shutdown() with streams in flight and often an unanswered user PING; the scripted client acknowledges user PING, shutdown PING and stray PING acks in PRNG order, opens streams between and after the two GOAWAYs: the final GOAWAY must follow the shutdown acknowledgement, cover every accepted stream, accepted streams complete, later streams never reach the application, then the endpoint closes the transport and returns Ok; (E = client) the scripted server sends GOAWAY(last, code in {0,2,11,13,0xdeadbeef}, debug data) with requests below and above last: those at or below complete, those above fail with exactly that code and remote origin, no new stream is started afterwards, the connection future reports code and debug data. Non-trivial iff a GOAWAY was sent while more than one stream had been opened; distinct by behaviour fingerprint.",
+        "quick": [sim("shutdown", 16000), raw("shutdown", 3200)],
+        "thorough": [sim("shutdown", 400000), raw("shutdown", 100000)],
         "min_nontrivial": {"quick": 300, "thorough": 3000},
-        "assumptions": COMMON_ASSUME,
+        "require_stats": {"quick": {"c15.graceful_coop_scenarios": 2000, "c15.accepted_streams_judged": 3000, "shutdown.final_goaway_seen": 500, "shutdown.requests_above_last": 500, "shutdown.requests_below_last": 500, "shutdown.client_conn_err_compared": 300}, "thorough": {}},
+        "assumptions": COMMON_ASSUME + ["an endpoint that has refused or reset streams may answer their late frames with a connection error (RFC 9113 5.1 lets it limit the period over which it ignores them; h2's period for refused streams is zero): such runs are excused from the 'no connection error during graceful shutdown' rule"],
     },
     "C16": {
         "rule": "sim engine with 2-10 streams competing for connection capacity under reserve_capacity churn (raise/lower), max_send_buffer_size in {1..500k}; snapshot conservation (conn.window == conn.available + sum stream.available), no poll_capacity -> Ok(0), waits resolved at quiescence. Non-trivial iff a capacity notification was delivered with more than one stream in the scenario; distinct by behaviour fingerprint.",
@@ -111,12 +112,12 @@ PLANS = {
         "assumptions": COMMON_ASSUME,
     },
     "C17": {
-        "rule": "sim engine with send_reset / handle drops at every point of a stream's life (queued behind the concurrency limit, blocked on window, partly written, half-closed, closed): at most one non-reactive RST_STREAM per stream on the wire, nothing of the stream after it, other streams keep fidelity. Non-trivial iff a reset/abort/cancel was part of the program; distinct by behaviour fingerprint.",
-        "quick": [sim("resets", 16000)],
-        "thorough": [sim("resets", 400000)],
+        "rule": "sim engine with send_reset / handle drops at every point of a stream's life (queued behind the concurrency limit, blocked on window, partly written, half-closed, closed): at most one non-reactive RST_STREAM per stream on the wire, nothing of the stream after it, other streams keep fidelity; wire/API join (mon/reset.rs): the first RST_STREAM of a stream carries the caller's code when send_reset was called (codes drawn from {0,1,2,5,7,8,11,13,0xff,0x12345678,0xdeadbeef}), otherwise CANCEL, or NO_ERROR only on a server that had submitted its complete response, or a refusal/reaction code; once an endpoint has read a peer RST_STREAM(code) on a stream nothing else had failed, every error its handles report is a reset with exactly that code and remote origin and no operation on the stream is left waiting at quiescence; streams above a peer GOAWAY's last-stream-id fail with the GOAWAY's code and remote origin. Non-trivial iff a reset/abort/cancel was part of the program; distinct by behaviour fingerprint.",
+        "quick": [sim("resets", 16000), sim("shutdown", 6000), sim("lifecycle", 4000)],
+        "thorough": [sim("resets", 400000), sim("shutdown", 150000), sim("lifecycle", 100000)],
         "min_nontrivial": {"quick": 500, "thorough": 5000},
-        "require_stats": {"quick": {"send_reset_calls": 1000}, "thorough": {}},
-        "assumptions": COMMON_ASSUME + ["a further RST_STREAM(STREAM_CLOSED) sent in reaction to peer frames arriving for an already reset stream is RFC-permitted and not counted as a second reset"],
+        "require_stats": {"quick": {"send_reset_calls": 1000, "c17.user_reset_codes_compared": 5000, "c17.library_reset_codes_judged": 2000, "c17.errors_after_peer_reset_judged": 5000}, "thorough": {}},
+        "assumptions": COMMON_ASSUME + ["debug data of GOAWAY and I/O error kinds are not compared (the API log keeps code and origin)", "a further RST_STREAM(STREAM_CLOSED) sent in reaction to peer frames arriving for an already reset stream is RFC-permitted and not counted as a second reset"],
     },
     "C18": {
         "rule": "raw engine, flood family: a scripted peer drives one h2 endpoint (server: 16 flood kinds - rapid open+reset before/after accept, open beyond the concurrency limit, CONTINUATION trains, oversized header lists, tiny/empty DATA, PING/SETTINGS/WINDOW_UPDATE/PRIORITY/unknown-frame storms, frames on closed and reset streams; client: PUSH_PROMISE trains (bare, reset, completed), 1xx trains, tiny/empty DATA, the same storms) with applications that accept fast, hold, ignore or accept only a few streams, optionally with the endpoint's writes blocked or its send window withheld, at flood length n and again at 8n; hook-H2 snapshots around every connection poll are compared with reference bounds computed from the configuration only (records the application holds no handle to <= max_concurrent_streams + max_concurrent_reset_streams + max_pending_accept_reset_streams + 2; buffered receive events <= 3 per record + 3 per held stream + min(window/256 + data_frame_budget + 100, DATA frames the peer sent); queued send frames <= max_local_error_reset_streams + 2 per record + 4 per held stream), and while writes are blocked the bytes consumed from PING/SETTINGS floods must stay below 64 kB + 2 frames. Non-trivial iff the prelude reached the flood state in both runs; distinct by wire/schedule fingerprint of both runs.",
